@@ -96,5 +96,23 @@ PANIC = [
 ]
 
 
+# a mutable variable that SHADOWS a same-named binding of an enclosing scope (parameter, outer let, loop variable) and
+# is assigned in a branch / arm / operand / loop body: the merge must pick the innermost binding (round-8 seed C14-r8)
+VALUE += [
+    ("shadow-param-if", "pub fn main(c: bool, x: u8) -> u8 { let mut x = x; if c { x = x + 1u8; } x }"),
+    ("shadow-param-if-else", "pub fn main(c: bool, x: u8) -> u8 { let mut x = x; if c { x = x ^ 1u8; } else { x = x ^ 2u8; } x }"),
+    ("shadow-param-match", "pub fn main(sel: u8, acc: u8) -> u8 { let mut r = 0u8; { let mut acc = acc; match sel { 0u8 => { acc = acc ^ 10u8; } 1u8 => { acc = acc ^ 20u8; } _ => {} } r = acc; } r }"),
+    ("shadow-outer-let-block", "pub fn main(c: bool, x: u8) -> (u8, u8) { let y = x; let mut r = 0u8; { let mut y = y ^ 1u8; if c { y = y ^ 4u8; } r = y; } (r, y) }"),
+    ("shadow-twice", "pub fn main(c: bool, d: bool, x: u8) -> (u8, u8) { let mut x = x; let mut r = 0u8; { let mut x = x ^ 8u8; if d { x = x ^ 16u8; } r = x; } if c { x = x ^ 1u8; } (x, r) }"),
+    ("shadow-in-and-operand", "pub fn main(c: bool, x: u8) -> (bool, u8) { let mut x = x; let b = c && ({ x = x ^ 3u8; x > 4u8 }); (b, x) }"),
+    ("shadow-in-loop-if", "pub fn main(c: [bool; 3], x: u8) -> u8 { let mut x = x; for b in c { if b { x = x ^ 5u8; x = (x << 1u8) | (x >> 7u8); } } x }"),
+    ("shadow-loop-variable", "pub fn main(c: bool, a: [u8; 2]) -> u8 { let mut s = 0u8; for e in a { let mut e = e; if c { e = e ^ 255u8; } s = s ^ e; } s }"),
+    ("shadow-other-type", "pub fn main(c: bool, x: u8) -> u16 { let mut x = (x as u16) << 4u8; if c { x = x | 3u16; } x }"),
+    ("shadow-immutable-then-mutable", "pub fn main(c: bool, x: u8) -> u8 { let x = x ^ 1u8; let mut r = 0u8; { let mut x = x; if c { x = x ^ 2u8; } r = x; } r ^ x }"),
+    ("shadow-callee-param", "fn f(c: bool, x: u8) -> u8 { let mut x = x; if c { x = x ^ 9u8; } x }\npub fn main(c: bool, x: u8) -> u8 { f(c, x) ^ f(!c, x) }"),
+    ("shadow-const", "const K: u8 = 7u8;\npub fn main(c: bool, x: u8) -> u8 { let mut K = K ^ x; if c { K = K ^ 1u8; } K }"),
+]
+
+
 def all_sources():
     return list(VALUE) + list(PANIC)
